@@ -286,6 +286,20 @@ impl RaAdvService {
         }
     }
 
+    /// Verification hook: the pure advertisement builder for interface number `intf` of the
+    /// configuration.
+    #[cfg(feature = "verif-hooks")]
+    pub fn verif_build_announcement(
+        config: &crate::config::Config,
+        intf: usize,
+        ll: Option<[u8; 6]>,
+        mtu: Option<u32>,
+        self6: std::net::Ipv6Addr,
+        lifetime: std::time::Duration,
+    ) -> icmppkt::RtrAdvertisement {
+        Self::build_announcement_pure(config, &config.ra.interfaces[intf], ll, mtu, self6, lifetime)
+    }
+
     async fn build_announcement(
         &self,
         ifidx: u32,
